@@ -7,12 +7,10 @@ open ValueSpec (CqlTy)
 
 /-! ## which calls look at what the destination already holds -/
 
-/-- THE EXCLUDED CONDITION of `C04_rows_independent_partial`: the (column type, Go type, data) for which the value
-    `Unmarshal(info, data, &x)` leaves in `x` depends on what `x` held before —
-    * an EMPTY (zero-length, non-null) value of an ascii / text / varchar / blob column into an unnamed `[]byte`
-      (`*v = append((*v)[:0], data...)`: nil stays nil, non-nil becomes empty);
-    * `*[n]T` and struct destinations, whose parts are unmarshalled in place (model-vs-code: `reusex`). -/
-def sensitive (t : Option CqlTy) (ty : GoTy) (data : Option FrameRead.Bytes) : Bool :=
+/-- the excluded condition for destinations WITHOUT parts: an EMPTY (zero-length, non-null) value of an ascii / text /
+    varchar / blob column into an unnamed `[]byte` (`*v = append((*v)[:0], data...)`: nil stays nil, non-nil becomes
+    empty). (`*[n]T` and structs count as excluded here; `sensitive` below looks into them.) -/
+def sensitiveFlat (t : Option CqlTy) (ty : GoTy) (data : Option FrameRead.Bytes) : Bool :=
   match ty with
   | .bytes false =>
     (match t with | some t => textFamily t | none => false) && (match data with | some [] => true | _ => false)
@@ -27,8 +25,8 @@ theorem withPtr_base (f : GoTy → Option FrameRead.Bytes → URes) (ty : GoTy) 
 
 /-- outside the excluded condition a call on a destination that holds ANY value stores what the same call stores
     in a fresh zero value -/
-theorem intoBase_fresh (p : Nat) (t : CqlTy) (ty : GoTy) (data : Option FrameRead.Bytes) (prev : GoVal)
-    (h : sensitive (some t) ty data = false) : intoBase p t ty data prev = unmarshal p t ty data := by
+theorem intoBase_fresh_flat (p : Nat) (t : CqlTy) (ty : GoTy) (data : Option FrameRead.Bytes) (prev : GoVal)
+    (h : sensitiveFlat (some t) ty data = false) : intoBase p t ty data prev = unmarshal p t ty data := by
   unfold unmarshal
   cases ty with
   | ptr g => unfold intoBase; rfl
@@ -38,7 +36,7 @@ theorem intoBase_fresh (p : Nat) (t : CqlTy) (ty : GoTy) (data : Option FrameRea
     cases named with
     | true => rfl
     | false =>
-      simp only [sensitive, Bool.and_eq_false_iff] at h
+      simp only [sensitiveFlat, Bool.and_eq_false_iff] at h
       by_cases htf : textFamily t = true
       · simp only [htf, if_true]
         rcases h with h | h
@@ -49,10 +47,319 @@ theorem intoBase_fresh (p : Nat) (t : CqlTy) (ty : GoTy) (data : Option FrameRea
             | nil => simp at h
             | cons a b => rfl
       · simp [htf]
-  | array n g => simp [sensitive] at h
-  | struct gs => simp [sensitive] at h
-  | udtstruct ns gs => simp [sensitive] at h
+  | array n g => simp [sensitiveFlat] at h
+  | struct gs => simp [sensitiveFlat] at h
+  | udtstruct ns gs => simp [sensitiveFlat] at h
   | _ => rw [withPtr_base _ _ _ (by intro t h; cases h)]; unfold intoBase; rfl
+
+/-- Go destination types whose Unmarshal never looks at what the destination holds, whatever the column and the
+    cell: everything except the unnamed `[]byte` (empty cells) and the in-place composites -/
+def statelessTy : GoTy → Bool
+  | .bytes false => false
+  | .array _ _ => false
+  | .struct _ => false
+  | .udtstruct _ _ => false
+  | _ => true
+
+
+/-! ## destinations with parts: a struct for a UDT column, `[n]T` for a list / set column -/
+
+/-- which struct fields the fields of a UDT value write (the loop of unmarshalUDT without the decoding);
+    `none`: a written field falls under the flat excluded condition -/
+def udtMask (fnames : List String) (gs : List GoTy) : List String → List CqlTy → FrameRead.Bytes → List Bool → Option (List Bool)
+  | name :: names, t :: ts, data, mask =>
+    if data = [] then some mask
+    else if ValueSpec.shorter data 4 then some mask
+    else (match readBytesM data with
+     | none => some mask
+     | some (item, r) =>
+       (match lookupIdx name fnames 0 with
+        | none => udtMask fnames gs names ts r mask
+        | some i => (match gs[i]? with
+          | none => udtMask fnames gs names ts r mask
+          | some g => if sensitiveFlat (some t) g item then none else udtMask fnames gs names ts r (mask.set i true))))
+  | _, _, _, mask => some mask
+
+/-- a UDT value into a struct that holds another row's value: excluded unless the value is null / empty (the struct
+    is reset) or the value's fields WRITE EVERY FIELD OF THE STRUCT (a value with fewer fields than the type, or a
+    struct field the type does not name, leaves a field as it was: KF-C04-7) and no written field is an empty
+    text-family value into a `[]byte` field (KF-C04-6) -/
+def udtSens (names : List String) (ts : List CqlTy) (fnames : List String) (gs : List GoTy) (data : Option FrameRead.Bytes) : Bool :=
+  if dataBytes data = [] then false
+  else match udtMask fnames gs names ts (dataBytes data) (List.replicate gs.length false) with
+    | none => true
+    | some m => !(m.all id)
+
+/-- a list / set into `[n]T`: every element is overwritten; excluded when the element type is itself excluded for
+    some value (`[n][]byte` of a text-family element type, nested arrays / structs) -/
+def arrSens (et : CqlTy) (g : GoTy) : Bool :=
+  !(statelessTy g || (match g with | .bytes false => !textFamily et | _ => false))
+
+/-- THE EXCLUDED CONDITION of the `C04_rows_independent…_partial` theorems: the (column type, Go type, data) for
+    which what `Unmarshal(info, data, &x)` leaves in `x` depends on what `x` held before. -/
+def sensitive (t : Option CqlTy) (ty : GoTy) (data : Option FrameRead.Bytes) : Bool :=
+  match ty with
+  | .udtstruct fnames gs => (match t with | some (.udt names ts) => udtSens names ts fnames gs data | _ => true)
+  | .struct gs => (match t with | some (.udt names ts) => udtSens names ts [] gs data | _ => true)
+  | .array _ g => (match t with | some (.list et) => arrSens et g | some (.set et) => arrSens et g | _ => true)
+  | _ => sensitiveFlat t ty data
+
+/-- two runs of the field loop — in place on `acc1` (the code on a reused struct) and C12's model of the loop on a
+    fresh struct `acc2` — agree on every field that `m'` marks as written -/
+def URel (L : Nat) (a b : LRes (List GoVal)) (m' : List Bool) : Prop :=
+  match a, b with
+  | .ok r1 _, .ok r2 _ => r1.length = L ∧ r2.length = L ∧ m'.length = L ∧ ∀ j : Nat, m'[j]? = some true → r1[j]? = r2[j]?
+  | .err, .err => True
+  | .crash, .crash => True
+  | .unmodelled, .unmodelled => True
+  | _, _ => False
+
+theorem udt_rel (p : Nat) (fnames : List String) (gs : List GoTy) :
+    ∀ (names : List String) (ts : List CqlTy) (data : FrameRead.Bytes) (acc1 acc2 : List GoVal) (mask m' : List Bool),
+    acc1.length = gs.length → acc2.length = gs.length → mask.length = gs.length →
+    (∀ j : Nat, mask[j]? = some true → acc1[j]? = acc2[j]?) →
+    udtMask fnames gs names ts data mask = some m' →
+    URel gs.length (udtInto p names ts fnames gs data acc1) (unmarshalUdtStruct p names ts fnames gs data acc2) m' := by
+  intro names
+  induction names with
+  | nil =>
+    intro ts data acc1 acc2 mask m' h1 h2 h3 h4 hm
+    simp only [udtMask] at hm
+    cases hm
+    simp [udtInto, unmarshalUdtStruct, URel, h1, h2, h3]
+    exact h4
+  | cons name names ih =>
+    intro ts data acc1 acc2 mask m' h1 h2 h3 h4 hm
+    cases ts with
+    | nil =>
+      simp only [udtMask] at hm
+      cases hm
+      simp [udtInto, unmarshalUdtStruct, URel, h1, h2, h3]
+      exact h4
+    | cons t ts =>
+      simp only [udtMask] at hm
+      rw [udtInto, unmarshalUdtStruct]
+      by_cases hd : data = []
+      · simp only [hd, if_true] at hm ⊢
+        cases hm
+        simp [URel, h1, h2, h3]
+        exact h4
+      · simp only [hd, if_false] at hm ⊢
+        by_cases hs : ValueSpec.shorter data 4 = true
+        · simp only [hs, if_true] at hm ⊢
+          simp [URel]
+        · simp only [hs] at hm ⊢
+          simp only [Bool.false_eq_true, if_false] at hm ⊢
+          cases hr : readBytesM data with
+          | none => simp [URel]
+          | some ir =>
+            obtain ⟨item, r⟩ := ir
+            rw [hr] at hm
+            simp only at hm ⊢
+            cases hl : lookupIdx name fnames 0 with
+            | none =>
+              rw [hl] at hm
+              simp only at hm ⊢
+              exact ih ts r acc1 acc2 mask m' h1 h2 h3 h4 hm
+            | some i =>
+              rw [hl] at hm
+              simp only at hm ⊢
+              cases hg : gs[i]? with
+              | none =>
+                rw [hg] at hm
+                simp only at hm ⊢
+                exact ih ts r acc1 acc2 mask m' h1 h2 h3 h4 hm
+              | some g =>
+                rw [hg] at hm
+                simp only at hm ⊢
+                by_cases hsens : sensitiveFlat (some t) g item = true
+                · simp [hsens] at hm
+                · have hsens' : sensitiveFlat (some t) g item = false := by simpa using hsens
+                  simp only [hsens, Bool.false_eq_true, if_false] at hm
+                  have hin := intoBase_fresh_flat p t g item (acc1.getD i .nil) hsens'
+                  rw [hin]
+                  unfold unmarshal
+                  have hi : i < gs.length := by
+                    have := List.getElem?_eq_some_iff.mp hg
+                    exact this.1
+                  cases hres : withPtr (unmarshalBase p t) g item with
+                  | ok v =>
+                    simp only
+                    apply ih ts r (acc1.set i v) (acc2.set i v) (mask.set i true) m' (by simp [h1]) (by simp [h2]) (by simp [h3]) _ hm
+                    intro j hj
+                    by_cases hji : j = i
+                    · subst hji
+                      simp [h1, h2, hi]
+                    · have : mask[j]? = some true := by
+                        rw [List.getElem?_set] at hj
+                        simp [Ne.symm hji] at hj
+                        exact hj
+                      rw [List.getElem?_set, List.getElem?_set]
+                      simp [Ne.symm hji]
+                      exact h4 j this
+                  | err => simp [URel]
+                  | crash => simp [URel]
+                  | unmodelled => simp [URel]
+
+theorem zeroOfs_length (gs : List GoTy) : (zeroOfs gs).length = gs.length := by
+  induction gs with
+  | nil => simp [zeroOfs]
+  | cons g gs ih => simp [zeroOfs, ih]
+
+theorem fit_length (n : Nat) (l : List GoVal) : (fit n l).length = n := by
+  simp [fit]
+
+/-- when the value's fields write every field of the struct, the struct's earlier contents do not matter -/
+theorem udt_fresh (p : Nat) (names : List String) (ts : List CqlTy) (fnames : List String) (gs : List GoTy)
+    (data : FrameRead.Bytes) (prevs : List GoVal) (k : List GoVal → GoVal) (m' : List Bool)
+    (hm : udtMask fnames gs names ts data (List.replicate gs.length false) = some m') (hall : m'.all id = true) :
+    (match udtInto p names ts fnames gs data (fit gs.length prevs) with
+      | .ok vs _ => URes.ok (k vs) | .err => .err | .crash => .crash | .unmodelled => .unmodelled)
+    = (match unmarshalUdtStruct p names ts fnames gs data (zeroOfs gs) with
+      | .ok vs _ => URes.ok (k vs) | .err => .err | .crash => .crash | .unmodelled => .unmodelled) := by
+  have hrel := udt_rel p fnames gs names ts data (fit gs.length prevs) (zeroOfs gs) (List.replicate gs.length false) m'
+    (fit_length _ _) (zeroOfs_length gs) (by simp)
+    (by intro j hj; rw [List.getElem?_replicate] at hj; split at hj <;> simp at hj) hm
+  cases h1 : udtInto p names ts fnames gs data (fit gs.length prevs) with
+  | ok r1 rest1 =>
+    cases h2 : unmarshalUdtStruct p names ts fnames gs data (zeroOfs gs) with
+    | ok r2 rest2 =>
+      rw [h1, h2] at hrel
+      obtain ⟨l1, l2, l3, hj⟩ := hrel
+      have : r1 = r2 := by
+        apply List.ext_getElem?
+        intro j
+        by_cases hjl : j < gs.length
+        · apply hj j
+          have hmj : m'[j] = true := by
+            have := List.all_eq_true.mp hall (m'[j]'(by omega)) (List.getElem_mem _)
+            simpa using this
+          rw [List.getElem?_eq_getElem (by omega), hmj]
+        · have a1 : r1[j]? = none := by simp; omega
+          have a2 : r2[j]? = none := by simp; omega
+          rw [a1, a2]
+      simp [this]
+    | err => rw [h1, h2] at hrel; exact absurd hrel (by simp [URel])
+    | crash => rw [h1, h2] at hrel; exact absurd hrel (by simp [URel])
+    | unmodelled => rw [h1, h2] at hrel; exact absurd hrel (by simp [URel])
+  | err =>
+    cases h2 : unmarshalUdtStruct p names ts fnames gs data (zeroOfs gs) <;> rw [h1, h2] at hrel <;> simp [URel] at hrel ⊢
+  | crash =>
+    cases h2 : unmarshalUdtStruct p names ts fnames gs data (zeroOfs gs) <;> rw [h1, h2] at hrel <;> simp [URel] at hrel ⊢
+  | unmodelled =>
+    cases h2 : unmarshalUdtStruct p names ts fnames gs data (zeroOfs gs) <;> rw [h1, h2] at hrel <;> simp [URel] at hrel ⊢
+
+/-- the element loop on an array whose element calls never look at the element they replace -/
+theorem elemsInto_eq (p : Nat) (f : Option FrameRead.Bytes → GoVal → URes) (g' : Option FrameRead.Bytes → URes)
+    (h : ∀ item prev, f item prev = g' item) :
+    ∀ (n : Nat) (b : FrameRead.Bytes) (prevs : List GoVal), elemsInto p f n b prevs = unmarshalElems p g' n b := by
+  intro n
+  induction n with
+  | zero => intro b prevs; rfl
+  | succ n ih =>
+    intro b prevs
+    simp only [elemsInto, unmarshalElems]
+    cases readCollItem p b with
+    | none => rfl
+    | some ir =>
+      obtain ⟨item, r⟩ := ir
+      simp only [h, ih]
+      cases g' item with
+      | ok v => simp only []; cases unmarshalElems p g' n r <;> rfl
+      | _ => rfl
+
+/-- outside the excluded condition a call on a destination that holds ANY value stores what the same call stores
+    in a fresh zero value -/
+theorem intoBase_fresh (p : Nat) (t : CqlTy) (ty : GoTy) (data : Option FrameRead.Bytes) (prev : GoVal)
+    (h : sensitive (some t) ty data = false) : intoBase p t ty data prev = unmarshal p t ty data := by
+  cases ty with
+  | udtstruct fnames gs =>
+    cases t with
+    | udt names ts =>
+      simp only [sensitive, udtSens] at h
+      unfold unmarshal
+      rw [withPtr_base _ _ _ (by intro t h; cases h)]
+      unfold intoBase
+      simp only [unmarshalBase]
+      by_cases hd : dataBytes data = []
+      · simp [hd]
+      · simp only [hd, if_false] at h ⊢
+        cases hm : udtMask fnames gs names ts (dataBytes data) (List.replicate gs.length false) with
+        | none => rw [hm] at h; simp at h
+        | some m' =>
+          rw [hm] at h
+          have hall : m'.all id = true := by simpa using h
+          exact udt_fresh p names ts fnames gs (dataBytes data) (partsOf prev) (fun vs => .udtstruct fnames vs) m' hm hall
+    | _ => simp [sensitive] at h
+  | struct gs =>
+    cases t with
+    | udt names ts =>
+      simp only [sensitive, udtSens] at h
+      unfold unmarshal
+      rw [withPtr_base _ _ _ (by intro t h; cases h)]
+      unfold intoBase
+      simp only [unmarshalBase]
+      by_cases hd : dataBytes data = []
+      · simp [hd]
+      · simp only [hd, if_false] at h ⊢
+        cases hm : udtMask [] gs names ts (dataBytes data) (List.replicate gs.length false) with
+        | none => rw [hm] at h; simp at h
+        | some m' =>
+          rw [hm] at h
+          have hall : m'.all id = true := by simpa using h
+          exact udt_fresh p names ts [] gs (dataBytes data) (partsOf prev) (fun vs => .struct vs) m' hm hall
+    | _ => simp [sensitive] at h
+  | array len g =>
+    have helem : ∀ (et : CqlTy), arrSens et g = false →
+        ∀ item prev, intoBase p et g item prev = withPtr (unmarshalBase p et) g item := by
+      intro et he item prev
+      have : sensitiveFlat (some et) g item = false := by
+        simp only [arrSens, Bool.not_eq_false', Bool.or_eq_true] at he
+        rcases he with he | he
+        · cases g with
+          | bytes named => cases named <;> simp_all [statelessTy, sensitiveFlat]
+          | _ => simp_all [statelessTy, sensitiveFlat]
+        · cases g with
+          | bytes named => cases named <;> simp_all [sensitiveFlat]
+          | _ => simp at he
+      exact intoBase_fresh_flat p et g item prev this
+    unfold unmarshal
+    rw [withPtr_base _ _ _ (by intro t h; cases h)]
+    cases t with
+    | list et =>
+      have he : arrSens et g = false := by simpa [sensitive] using h
+      unfold intoBase
+      cases data with
+      | none => rfl
+      | some d =>
+        simp only [unmarshalBase, unmarshalListTo]
+        cases readCollSize p d with
+        | none => rfl
+        | some nr =>
+          obtain ⟨n, r⟩ := nr
+          simp only [elemsInto_eq p _ _ (helem et he)]
+          split
+          · rfl
+          · cases unmarshalElems p (withPtr (unmarshalBase p et) g) n.toNat r <;> rfl
+    | set et =>
+      have he : arrSens et g = false := by simpa [sensitive] using h
+      unfold intoBase
+      cases data with
+      | none => rfl
+      | some d =>
+        simp only [unmarshalBase, unmarshalListTo]
+        cases readCollSize p d with
+        | none => rfl
+        | some nr =>
+          obtain ⟨n, r⟩ := nr
+          simp only [elemsInto_eq p _ _ (helem et he)]
+          split
+          · rfl
+          · cases unmarshalElems p (withPtr (unmarshalBase p et) g) n.toNat r <;> rfl
+    | _ => simp [sensitive] at h
+  | ptr g => exact intoBase_fresh_flat p t _ data prev (by simpa [sensitive] using h)
+  | bytes named => exact intoBase_fresh_flat p t _ data prev (by simpa [sensitive] using h)
+  | _ => exact intoBase_fresh_flat p t _ data prev (by simpa [sensitive] using h)
 
 theorem unmarshalInto_fresh (p : Nat) (t : Option CqlTy) (ty : GoTy) (data : Option FrameRead.Bytes) (prev : GoVal)
     (h : sensitive t ty data = false) : unmarshalInto p t ty data prev = unmarshalFresh p t ty data := by
@@ -522,15 +829,6 @@ theorem mapScanAllT_eq (p : Nat) (tys : List GoTy) (names : List FrameRead.Bytes
 
 /-! ## destination types that never fall under the excluded condition -/
 
-/-- Go destination types whose Unmarshal never looks at what the destination holds, whatever the column and the
-    cell: everything except the unnamed `[]byte` (empty cells) and the in-place composites -/
-def statelessTy : GoTy → Bool
-  | .bytes false => false
-  | .array _ _ => false
-  | .struct _ => false
-  | .udtstruct _ _ => false
-  | _ => true
-
 theorem insensitive_of_stateless (tys : List GoTy) (h : tys.all statelessTy = true) (calls : List Call) :
     insensitive tys calls = true := by
   simp only [insensitive, List.all_eq_true]
@@ -541,7 +839,7 @@ theorem insensitive_of_stateless (tys : List GoTy) (h : tys.all statelessTy = tr
     have hmem : ty ∈ tys := List.mem_of_getElem? hty
     have hs : statelessTy ty = true := (List.all_eq_true.mp h) ty hmem
     cases ty with
-    | bytes named => cases named <;> simp_all [statelessTy, sensitive]
-    | _ => simp_all [statelessTy, sensitive]
+    | bytes named => cases named <;> simp_all [statelessTy, sensitive, sensitiveFlat]
+    | _ => simp_all [statelessTy, sensitive, sensitiveFlat]
 
 end C04
